@@ -8,11 +8,15 @@
    * exactness of the table rewrite (`displaceEntries`): every entry becomes entry + shift, the table keeps its
      length, and a refusal happens exactly when some entry would leave its field;
    * the per-entry decision is the extracted `checked_add_signed` (C20) at 32 and 64 bits.
+   * `C01_relocated` (for every input): the traversal reaches exactly the tables the independent walker finds in the
+     last moov of the INPUT, and every entry of them, read from the returned metadata at the same place relative to
+     the moov payload, is the input entry shifted by |metadata| − span.offset, inside its field.
   Tied to the code by the correspondence (remux generator) and by `Spec_C01` evaluated on the real output.
-  Not yet proved: that the traversal reaches exactly the tables the independent walker finds (stated as
-  `Spec_C01`, checked on every generated case).
+  Not yet proved: that the walker, run on the OUTPUT, finds the tables at those places (the frame property of the
+  walker; `Spec_C01` decides it on every generated case).
 -/
 import MediaSan.Lemmas.Mp4Displace
+import MediaSan.Lemmas.RelocateFinal
 namespace MediaSan.Props.C01
 open MediaSan MediaSan.Mp4 MediaSan.Generated
 
@@ -158,5 +162,57 @@ example : planRewrite 100 (100 + 4294967288) = .error .unsupportedBoxLayout := b
 example : displaceCo (-5) ⟨4, 2, [0,0,0,5, 0,0,1,0]⟩ = .ok (⟨4, 2, [0,0,0,0, 0,0,0,251]⟩, ()) := by decide
 example : displaceCo (-6) ⟨4, 2, [0,0,0,5, 0,0,1,0]⟩ = .err .invalidInput := by decide
 example : displaceCo 1 ⟨4, 1, [255,255,255,255]⟩ = .err .invalidInput := by decide
+
+section Relocated
+open MediaSan.Spec.Mp4Walk MediaSan.Spec.Mp4Rules
+
+/-- C01 for EVERY input, configuration and cursor kind, on the returned bytes: whenever the model returns metadata, the
+    independent walker (Spec/Mp4Walk.lean) finds the input to be a clean top-level box sequence `bs` with a last moov `m`
+    whose chunk-offset tables are `rs` (`moovTables`: one per trak, stco or co64); the moov payload sits in the returned
+    metadata at offset `mo`, and EVERY entry of EVERY one of those tables, read from the metadata at the same place
+    relative to the payload, equals the input entry plus (|metadata| − span.offset) - exactly, inside its field (no wrap,
+    no truncation).  (Lemmas/Splice.lean: what a table mutation does to the serialised tree, against the walker's
+    geometry; Fusion.lean: laziness of the tree does not matter; KeepRel.lean: the kept moov is the walker's last moov;
+    Mp4Displace.lean: the entry arithmetic.) -/
+theorem C01_relocated (s : Stream) (kind : SkipKind) (cfg : Config) (r : Sanitized) (md : Bytes)
+    (h : Mp4.sanitize s kind cfg = .ok r) (hmd : r.metadata = some md) :
+    ∃ (bs : List TopBox) (m : TopBox) (rs : List Region) (mo : Nat),
+      walkAll s 0 s.len cfg.cumulativeMdatBoxSize = .clean bs ∧ lastMoov bs = some m ∧ moovTables s m = some rs ∧
+      mo + m.payloadLen ≤ md.length ∧
+      ∀ t ∈ rs, ∀ i, i < t.count →
+        (beToNat ((md.drop (mo + (t.off - m.payloadOff) + t.width * i)).take t.width) : Int) =
+          (entryAt s t i : Int) + ((md.length : Int) - (r.data.offset : Int)) ∧
+        0 ≤ (entryAt s t i : Int) + ((md.length : Int) - (r.data.offset : Int)) ∧
+        (entryAt s t i : Int) + ((md.length : Int) - (r.data.offset : Int)) < (256 : Int) ^ t.width := by
+  obtain ⟨bs, m, T, mo, hw, hlm, hmt, hle, ho, hfit, hlen, hsl, hent⟩ := C01R.relocated s kind cfg r md h hmd
+  obtain ⟨_, p2⟩ := C01R.relocated_pointwise s m T mo md _ hle ho hfit hsl (fun x hx i hi => (hent x hx i hi).1)
+  refine ⟨bs, m, T.map (·.1), mo, hw, hlm, hmt, hlen, ?_⟩
+  intro t ht i hi
+  obtain ⟨x, hx, rfl⟩ := List.mem_map.mp ht
+  exact ⟨p2 x hx i hi, (hent x hx i hi).2.1, (hent x hx i hi).2.2⟩
+
+
+-- Non-vacuity: media before the movie box: metadata of 76 bytes is returned for a span at 20, the shift is 56
+example : (match Mp4.sanitize (Stream.ofBytes MediaSan.Props.C02.tinyRemux) .seekable {} with
+    | .ok r => r.metadata.map (fun md => ((md.length : Int) - (r.data.offset : Int), (md.drop 68).take 8)) | _ => none) =
+    some (56, [0, 0, 0, 0, 0, 0, 0, 0]) := by decide +kernel
+
+
+-- Non-vacuity with an entry: one stco entry 28 (inside the mdat payload at 28..32); the metadata is 80 bytes, the span
+-- starts at 20, so the entry reads 28 + 60 = 88 in the returned metadata
+def oneEntryRemux : Bytes :=
+  [0,0,0,20, 0x66,0x74,0x79,0x70, 0x69,0x73,0x6f,0x6d, 0,0,0,0, 0x69,0x73,0x6f,0x6d,
+   0,0,0,12, 0x6d,0x64,0x61,0x74, 1,2,3,4,
+   0,0,0,60, 0x6d,0x6f,0x6f,0x76,
+   0,0,0,52, 0x74,0x72,0x61,0x6b,
+   0,0,0,44, 0x6d,0x64,0x69,0x61,
+   0,0,0,36, 0x6d,0x69,0x6e,0x66,
+   0,0,0,28, 0x73,0x74,0x62,0x6c,
+   0,0,0,20, 0x73,0x74,0x63,0x6f, 0,0,0,0, 0,0,0,1, 0,0,0,28]
+example : (match Mp4.sanitize (Stream.ofBytes oneEntryRemux) .seekable {} with
+    | .ok r => r.metadata.map (fun md => ((md.length : Int) - (r.data.offset : Int), (md.drop 76).take 4)) | _ => none) =
+    some (60, [0, 0, 0, 88]) := by decide +kernel
+
+end Relocated
 
 end MediaSan.Props.C01
